@@ -1210,7 +1210,7 @@ fn run_history(st: &Store) -> Vec<(String, String)> {
 }
 
 fn oracle(tier: &str, out: &str) -> i32 {
-    let n = if tier == "thorough" { 1600 } else { 160 };
+    let mut n = if tier == "thorough" { 1600 } else { 160 };
     let mut failures = vec![];
     let mut by_fmt: BTreeMap<String, usize> = BTreeMap::new();
     let mut hist: BTreeMap<usize, usize> = BTreeMap::new();
@@ -1258,6 +1258,11 @@ fn oracle(tier: &str, out: &str) -> i32 {
         let fails = run_history(&st);
         for (o, d) in fails {
             failures.push((o, i, describe_store(&st), d));
+        }
+        // a dozen failing histories say enough (a start-up that never writes its file costs a 20 s wait each)
+        if failures.len() >= 12 {
+            n = i + 1;
+            break;
         }
     }
     let mut j = String::new();
@@ -1337,8 +1342,30 @@ fn replay(args: &[String]) -> i32 {
     }
 }
 
+/// Every start-up of this harness names the user dictionary file explicitly (userphrase_path / the userpath of
+/// chewing_new2).  The per-user directory of the environment (CHEWING_USER_PATH) is then none of the loader's
+/// business: it is pointed at a directory that holds a legacy store of its own, whose two records must never
+/// show up in any migrated dictionary (they would be reported as `*-extra`, the records they displaced as
+/// `*-missing`).
+fn install_decoy_user_dir() -> PathBuf {
+    let base = std::env::var("VERIF_SCRATCH").unwrap_or_else(|_| "/verif/_build/work/c19-scratch".to_string());
+    let d = PathBuf::from(base).join(format!("decoy-{}", std::process::id()));
+    let _ = std::fs::remove_dir_all(&d);
+    std::fs::create_dir_all(&d).expect("decoy dir");
+    let syl = |s: &str| s.parse::<Syllable>().expect("decoy syllable").to_u16();
+    let recs = vec![
+        LRec { phrase: "誘餌".to_string(), syls: vec![syl("ㄧㄡˋ"), syl("ㄦˇ")], user: 7, time: 1, max: 7, orig: 0, deleted: false },
+        LRec { phrase: "餌".to_string(), syls: vec![syl("ㄦˇ")], user: 3, time: 2, max: 3, orig: 0, deleted: false },
+    ];
+    std::fs::write(d.join("uhash.dat"), write_text(5, &recs)).expect("decoy uhash.dat");
+    // before any thread exists
+    unsafe { std::env::set_var("CHEWING_USER_PATH", &d) };
+    d
+}
+
 fn main() {
     let args: Vec<String> = std::env::args().skip(1).collect();
+    let decoy = install_decoy_user_dir();
     let rc = match args.first().map(|s| s.as_str()) {
         Some("views") => views(&args[1], &args[2], &args[3]),
         Some("corrupt") => corrupt(&args[1], &args[2]),
@@ -1350,5 +1377,6 @@ fn main() {
             2
         }
     };
+    let _ = std::fs::remove_dir_all(&decoy);
     std::process::exit(rc);
 }
